@@ -10,7 +10,8 @@ import time
 VERIF = os.path.dirname(os.path.dirname(os.path.abspath(__file__)))
 REPO = os.environ.get("AMC_REPO", "/repo")
 CACHE = os.path.join(VERIF, ".cache")
-EVIDENCE = os.path.join(VERIF, "evidence")
+# evidence/ describes /repo itself: a run against another tree (AMC_REPO, used to try the checks on seeded changes) writes elsewhere
+EVIDENCE = os.path.join(VERIF, "evidence") if REPO == "/repo" else os.path.join(CACHE, "alt-evidence")
 REPLAYS = os.path.join(VERIF, "replays")
 NCPU = min(16, os.cpu_count() or 4)
 
